@@ -10,10 +10,13 @@ Open Scope N_scope.
 
 Inductive case :=
 | CHist (tbl : list N) (ops : (nat -> N) -> list op) (obs : (nat -> N) -> list (res unit * dump))
+| CConc (tbl : list N) (pre : (nat -> N) -> list op) (obs : (nat -> N) -> list (res unit * dump))
+        (batch : (nat -> N) -> list op) (rs : list (res unit)) (final : (nat -> N) -> dump)
 | CVo (tbl : list N) (outs : (nat -> N) -> list (list N)) (obs : (nat -> N) -> res (list N)).
 
 Definition check (c : case) : bool :=
   match c with
   | CHist tbl ops obs => check_hist tbl ops obs
+  | CConc tbl pre obs batch rs final => check_conc tbl pre obs batch rs final
   | CVo tbl outs obs => res_eqb bytes_eqb (vo_keys (outs (lookup tbl))) (obs (lookup tbl))
   end.
